@@ -487,3 +487,26 @@ Definition new_direct (ctor key iv : list N) : option inst :=
 (* the accessors Key() and IV() *)
 Definition acc_key (i : inst) : list N := match i with IBlock _ k _ _ => k | IStream k _ => k | INone => [] end.
 Definition acc_iv (i : inst) : list N := match i with IBlock _ _ iv _ => iv | IStream _ n => n | INone => [] end.
+
+(* ---------- who owns the argument buffers ----------
+   The model's constructors are functions of VALUES: new_crypt / new_direct cannot modify the
+   key or iv they are given, and the key is consumed there (key schedule, or copy into the
+   salsa20 arrays) - no later step reads the caller's key buffer.
+   The Go block-cipher wrappers, however, keep the caller's IV SLICE (c.iv = iv), not a copy:
+   every Encrypt / Decrypt reads the bytes that buffer holds at the time of the call.
+   [istep_env] makes that dependency explicit: ivnow is the content of the caller's IV buffer
+   when the call is made (salsa20 copied its nonce, none has no iv). *)
+Section Owner.
+  Variable BC : cid -> list N -> list N -> list N.
+  Variable KS : list N -> list N -> nat -> N.
+
+  Definition istep_env (i : inst) (ivnow : list N) (o : op) : option (list N * inst) :=
+    match i with
+    | IBlock c k iv cr =>
+        match cstep (cid_bs c) (BC c k) ivnow cr o with
+        | Some (out, cr') => Some (out, IBlock c k iv cr')
+        | None => None
+        end
+    | _ => istep BC KS i o
+    end.
+End Owner.
